@@ -1,6 +1,7 @@
 package gen
 
 import (
+	"bufio"
 	"bytes"
 	"io"
 	"net/http"
@@ -23,6 +24,10 @@ type HeaderKV struct {
 	// (two map keys differing only in letter case; the encoders must refuse or at least behave
 	// deterministically). Used by C18 only.
 	Force bool `json:"force,omitempty"`
+	// NoValues: the map holds the key with NO values (1: a nil slice, 2: an empty non-nil slice),
+	// as `h["Set-Cookie"] = nil` leaves it. The serializers emit such a field with an empty
+	// value, so it is part of the exchange. Values is ignored. Used by C09.
+	NoValues int `json:"no_values,omitempty"`
 }
 
 // PlainReader hands out b through a reader that implements nothing but Read (like a file, pipe
@@ -53,6 +58,18 @@ func (p *PlainReader) Read(dst []byte) (int, error) {
 // Source returns a bytes.Reader (mode 0) or a PlainReader (mode>0: chunk size = mode, odd modes
 // also return the last bytes together with io.EOF).
 func Source(b []byte, mode int) io.Reader {
+	if mode == SourceSeekAdvanced {
+		// a seekable reader that has ALREADY been read up to where the input begins (a container
+		// with a preamble, an earlier item consumed): the input is what the reader has left
+		pre := Filler(61, uint64(len(b))+5)
+		br := bytes.NewReader(append(append([]byte{}, pre...), b...))
+		br.Seek(int64(len(pre)), io.SeekStart)
+		return br
+	}
+	if mode == SourceBufio {
+		// a *bufio.Reader with the smallest buffer (Peek / Discard / ReadSlice are tempting fast paths)
+		return bufio.NewReaderSize(&PlainReader{B: append([]byte{}, b...), Chunk: 1 << 20}, 16)
+	}
 	if mode == SourceBuffer {
 		backing := append(make([]byte, 0, len(b)+32), b...)
 		bb := bytes.NewBuffer(backing)
@@ -69,6 +86,12 @@ func Source(b []byte, mode int) io.Reader {
 // whose Next method hands out slices of the underlying array). After the read the caller calls
 // Recycle: it reuses that array, and what the code under test returned must not change.
 const SourceBuffer = -100
+
+// SourceSeekAdvanced, SourceBufio: see Source.
+const (
+	SourceSeekAdvanced = -101
+	SourceBufio        = -102
+)
 
 var bufBacking sync.Map // *bytes.Buffer -> its backing array
 
@@ -100,12 +123,12 @@ func SourceModeOf(b []byte) int {
 	if h < 0 {
 		h = -h
 	}
-	return []int{0, 0, 0, 0, SourceBuffer, SourceBuffer, 1, 2, 7, 512, 4096, 4097}[h%12]
+	return []int{0, 0, SourceSeekAdvanced, SourceBufio, SourceBuffer, SourceBuffer, 1, 2, 7, 512, 4096, 4097}[h%12]
 }
 
 // DrawSourceMode draws a reader mode for Source.
 func DrawSourceMode(t *rapid.T, label string) int {
-	return rapid.SampledFrom([]int{0, 0, SourceBuffer, 1, 2, 7, 512, 4096, 1 << 20, 1<<20 + 1}).Draw(t, label)
+	return rapid.SampledFrom([]int{0, 0, SourceBuffer, SourceSeekAdvanced, SourceBufio, 1, 2, 7, 512, 4096, 1 << 20, 1<<20 + 1}).Draw(t, label)
 }
 
 // BuildHeader inserts the fields with http.Header.Add (the repository's own calling
@@ -114,6 +137,17 @@ func BuildHeader(kvs []HeaderKV) http.Header {
 	h := http.Header{}
 	keyOf := map[string]string{} // folded name -> map key in use (never two keys for one folded name)
 	for _, kv := range kvs {
+		if kv.NoValues > 0 {
+			key := http.CanonicalHeaderKey(kv.Name)
+			if kv.Raw {
+				key = kv.Name
+			}
+			if _, dup := keyOf[strings.ToLower(kv.Name)]; !dup {
+				keyOf[strings.ToLower(kv.Name)] = key
+				h[key] = map[int][]string{1: nil, 2: {}}[kv.NoValues]
+			}
+			continue
+		}
 		if len(kv.Values) == 0 {
 			continue
 		}
